@@ -129,5 +129,7 @@ def native_replay(harness, vals, release=False):
     p = subprocess.run([_replay_built[key], harness, arg], capture_output=True, text=True, env=_env(False), timeout=120)
     for ln in p.stdout.split('\n'):
         if ln.startswith('REPLAY'):
+            if 'unknown harness' in ln:
+                raise Inconclusive('the native replay binary has no function %s (stale src/bin/replay.rs?)' % harness)
             return ln
     return 'REPLAY crashed: ' + p.stderr[-200:]
